@@ -385,6 +385,72 @@ func vSpLqParams(bothCsv bool) *swap.OpeningParams {
 	}
 }
 
+// vSpLqDrawOpening draws an opening transaction of 1..maxOut outputs that the validator accepts:
+// the swap output sits at an arbitrary position k, is explicit or confidential (honest asset
+// commitment, range proof rewinding with the announced key) and discloses (policy asset, amount);
+// outputs before it carry other scripts, outputs after it carry another script or the swap script
+// again (a duplicate that the first-match rule must ignore); the other outputs are explicit with
+// arbitrary asset and value.  Natively a real transaction is built (real range proof).
+func vSpLqDrawOpening(p *swap.OpeningParams, expected []byte, maxOut int) string {
+	n := 1 + zzverif.Choice("tx.n", maxOut)
+	k := zzverif.Choice("tx.swap_index", n)
+	tx := &transaction.Transaction{Version: 2}
+	on := [3]string{"out0", "out1", "out2"}
+	for i := 0; i < n; i++ {
+		o := &vLqOut{}
+		script := expected
+		if i == k {
+			o.isSwap = true
+			o.asset, o.value = vLqAssetBody, p.Amount
+			if zzverif.Bool("swap_output_confidential") {
+				o.kind, o.honest = vLqRewinds, true
+			}
+		} else {
+			if i > k && zzverif.Bool(on[i]+".duplicate_swap_script") {
+				o.isSwap = true
+			} else {
+				script = zzverif.Bytes(on[i]+".script", -1)
+				zzverif.Assume(!bytes.Equal(script, expected))
+			}
+			o.asset, o.value = zzverif.Bytes(on[i]+".asset", 32), zzverif.U64(on[i]+".value")
+		}
+		if o.kind == vLqExplicit {
+			val := zzverif.Bytes(on[i]+".value_bytes", 9)
+			if !zzverif.Symbolic() {
+				val, _ = elementsutil.ValueToBytes(o.value)
+			}
+			o.out = &transaction.TxOutput{Asset: append([]byte{0x01}, o.asset...), Value: val, Script: script, Nonce: []byte{0x00}}
+		} else {
+			o.abf = zzverif.Bytes("swap.abf", 32)
+			o.vbf = zzverif.Bytes("swap.vbf", 32)
+			commit, err := confidential.AssetCommitment(o.asset, o.abf)
+			if err != nil {
+				zzverif.Assume(false) // not a valid scalar: outside the drawn space
+			}
+			vc, nonce, rp := zzverif.Bytes("swap.value_commitment", 33), zzverif.Bytes("swap.nonce", 33), zzverif.Bytes("swap.rangeproof", -1)
+			if zzverif.Symbolic() {
+				o.out = &transaction.TxOutput{Asset: commit, Value: vc, Script: script, Nonce: nonce, RangeProof: rp}
+			} else {
+				o.out = vLqNativeConfidential(p, o, commit, script)
+			}
+		}
+		vLqOuts = append(vLqOuts, o)
+		tx.Outputs = append(tx.Outputs, o.out)
+	}
+	vLqTx = tx
+	if zzverif.Symbolic() {
+		vLqTxHex = "0200"
+		return vLqTxHex
+	}
+	tx.Inputs = append(tx.Inputs, transaction.NewTxInput(make([]byte, 32), 0))
+	h, err := tx.ToHex()
+	if err != nil {
+		panic(err)
+	}
+	vLqTxHex = h
+	return h
+}
+
 // vSpLqSpend runs one Create*SpendingTransaction of the real LiquidOnChain on an opening
 // transaction that the real ValidateTx accepts and checks the transaction handed to SendRawTx.
 func vSpLqSpend(kind int, maxOut int, bothCsv bool) {
@@ -402,23 +468,13 @@ func vSpLqSpend(kind int, maxOut int, bothCsv bool) {
 		oa, _ := lw.CreateOpeningAddress(redeem)
 		zzverif.Assume(oa != w.addr)
 	}
-	openHex := vLqDrawTx(p, expected, maxOut)
-
 	// Precondition of C03: the opening transaction is one the validator accepts.  By C01
 	// (H_C01_liquidValidateTx) those are exactly the transactions whose FIRST output with the swap
 	// script unblinds with the announced key to (policy asset, amount) and whose Asset field is
-	// the explicit asset / the honest commitment.  Only these are kept (the other shapes drawn by
-	// vLqDrawTx end here); the real ValidateTx is still run and must accept.
-	k := vLqFirstSwap()
-	if vLqParseFails || k < 0 {
-		zzverif.Assume(false)
-	}
-	so := vLqOuts[k]
-	if so.kind == vLqNoRewind || (so.kind == vLqRewinds && !so.honest) {
-		zzverif.Assume(false)
-	}
-	zzverif.Assume(so.value == p.Amount)
-	zzverif.Assume(bytes.Equal(so.asset, vLqAssetBody))
+	// the explicit asset / the honest commitment.  vSpLqDrawOpening draws exactly that class; the
+	// real ValidateTx is still run and must accept.
+	openHex := vSpLqDrawOpening(p, expected, maxOut)
+	k := vLqFirstSwap() // index of the first output with the swap script
 	ok, verr := lw.ValidateTx(p, openHex)
 	zzverif.Assert(verr == nil, "C03.lq_precondition_no_error")
 	zzverif.Assert(ok, "C03.lq_precondition_validated")
@@ -574,7 +630,8 @@ func vLqNewChainWith(w *vSpLqWallet) *LiquidOnChain {
 
 // H_C03_liquid{Preimage,Csv,Coop}Spend: for every opening transaction the real ValidateTx accepts
 // (quick: 1 output, CSV 10080 — the csv entry also 60; thorough: 1..2 outputs, swap output at any
-// position, both CSV values; swap output explicit or confidential), every wallet fee answer
+// position, later outputs may repeat the swap script, both CSV values; swap output explicit or
+// confidential), every wallet fee answer
 // (error => 500 sat placeholder, 0 => refused) with fee <= amount: exactly one transaction is
 // sent; version 2, locktime 0, one input spending (TxHash(opening), first output with the swap
 // script = the output ValidateTx checked) with empty scriptSig and nSequence 0 (preimage, coop)
